@@ -298,7 +298,7 @@ def main():
         notes_src = json.load(open(os.path.join(os.path.dirname(list(exes.values())[0]), "build.json"))).get("source_patterns_noted", [])
     except Exception:
         notes_src = []
-    race_oracle_off = any(("atomic" in n) for n in notes_src)
+    race_oracle_off = any(n.endswith(": atomics") for n in notes_src)
     if race_oracle_off:
         # oracle (R) has no happens-before model for atomics: rather than risk an alarm on correct code it is switched off
         # (oracles (S) and (O) do not depend on it); the evidence says so
